@@ -84,6 +84,15 @@ class GridDriver:
         else:
             raise AssertionError(cls)
         m.set_environment(self.world)
+        # worlds are populated differently: none, one or two agents standing on the first cell (cells and their neighbourhoods
+        # do not depend on who lives there)
+        GridDriver.nworlds = getattr(GridDriver, "nworlds", 0) + 1
+        try:
+            from ECAgent.Core import Agent
+            for k in range(GridDriver.nworlds % 3):
+                self.world.add_agent(Agent("resident%d" % k, m), 0, 0, 0)
+        except Exception:  # noqa: BLE001
+            pass
         self.shape = list(shape)
         self.events.append({"op": "new_grid", "cls": cls, "shape": list(shape), "pos_table": self.pos_table(),
                             "ncells": len(self.world.cells)})
@@ -99,9 +108,11 @@ class GridDriver:
         try:
             x, y, z = c
             gc = self.world.getCell if ALIAS[0] else self.world.get_cell
-            if self.dims == 1 and y == 0 and z == 0:
+            self.ngc = getattr(self, "ngc", 0) + 1
+            # trailing coordinates that are 0 are left out the way callers do (in every kind of world, every other time)
+            if y == 0 and z == 0 and (self.dims == 1 or self.ngc % 2):
                 row = gc(x)
-            elif self.dims == 2 and z == 0:
+            elif z == 0 and (self.dims == 2 or self.ngc % 2):
                 row = gc(x, y)
             else:
                 row = gc(x, y, z)
@@ -329,6 +340,8 @@ def c09_programs(max_ext):
             prog += [["get_cell", c] for c in probe(s)]
             # the row must be the cell's CURRENT row: look every cell up again after components were removed / replaced
             prog += [["remove", "p"]] + [["get_cell", c] for c in cells(s)]
+            # a layer built from an array the caller keeps using as a scratch buffer
+            prog += [["add", "a", "array", 2], ["mutate", "a"]] + [["get_cell", c] for c in cells(s)]
             prog += [["add", "q", ("constant", "tconst", "tconst3")[len(out) % 3], 8], ["add", "r", "callable", 1]] + [["get_cell", c] for c in cells(s)]
             prog += [["remove", "q"], ["remove", "nope"]] + [["get_cell", c] for c in cells(s)]
             prog += [["add", "r", "halve", 0]] + [["get_cell", c] for c in cells(s)]
